@@ -131,3 +131,41 @@ PROPS["C01"] = {
         {"name": "c01.message", "engine": "rapid", "quick": R(6, 12000), "thorough": R(16, 1500000)},
     ],
 }
+
+PROPS["C05"] = {
+    "binary": "c05_mech",
+    "level": "exploration",
+    "technique": "exhaustive enumeration of the finite core configuration space (odometer over choice points) plus rapidcheck sampling of permutations/duplicates/garbled names, against a reference function written from the statement",
+    "level_text": ("The core space offered-subset(10 names) x disabled-subset(5) x preferred(12) x password x stored token(4) x protocol(4: SASL1, SASL2, SASL2+FAST, SASL2 with FAST disabled) is enumerated completely in the thorough tier (1.26e7 cases) "
+                   "and for all offered subsets of size <=3 in the quick tier; random cases add orderings, duplicates, unknown/garbled names, legacy X-* mechanisms and the default configuration. "
+                   "Each case drives the real SaslManager/Sasl2Manager and compares the mechanism of the first packet (or the reported mismatch and an empty wire) with the reference function."),
+    "level_note": "Trusted: the reference function in harness/c05_mech.cpp (written from the statement: token(by hash) > SCRAM(SHA3-512>512>256>1) > DIGEST-MD5 > PLAIN > ANONYMOUS; preferred wins if usable; legacy X-* mechanisms have no stated rank so only 'chosen is usable and not disabled' is required when one of them is usable).",
+    "rule": ("enum: every combination of the core space (see level text); rapid: core case + up to 3 inserted junk/duplicate names, shuffled order, default-disabled list, Google token. "
+             "Non-trivial: >=2 usable mechanisms, or a preferred mechanism set, or the strongest offered mechanism is disabled. Distinct = the full case description."),
+    "assumptions": [
+        "token mechanisms with channel binding (HT-*-ENDP/UNIQ/EXPR) are 'not supported' by this client and therefore never usable",
+        "in SASL 2 the token mechanisms are offered inside the FAST feature; with FAST disabled in the configuration (or no user agent) they are not on offer",
+    ],
+    "exhaustive_claim": True,
+    "exhaustive_scope": "c05.enum: quick = all offered subsets of size <=3 of the 10 core names x all other dimensions; thorough = the whole core space",
+    "subs": [
+        {"name": "c05.enum", "engine": "enum", "quick": {"workers": 12, "cases": 0, "params": {"max_offered": 3, "partition_depth": 6}, "max_seconds": 200},
+         "thorough": {"workers": 16, "cases": 0, "params": {"max_offered": -1, "partition_depth": 6}, "max_seconds": 3000}},
+        {"name": "c05.random", "engine": "rapid", "quick": R(4, 30000), "thorough": R(8, 3000000)},
+    ],
+}
+
+PROPS["C20"] = {
+    "binary": "c20_caps",
+    "level": "exploration",
+    "technique": "property-based testing (rapidcheck): differential against an independent XEP-0115 5.1 implementation (octet ordering, OpenSSL SHA-1) plus metamorphic relations (permutation/repetition invariance, single-change sensitivity); client-level check of advertised ver vs. disco#info reply",
+    "level_text": ("Generated info sets (0-4 identities incl. empty lang/name, non-ASCII and astral vs private-use characters; 0-40 features with duplicates, shared prefixes and case variants; optional FORM_TYPE form with single- and multi-valued fields) are hashed by the library and by an independent reference; "
+                   "each case is re-evaluated under 4 random permutations with feature repetition and one single-item change. A second check builds clients with random extension sets/identity/info form and compares the ver advertised in presence with the reference hash of the client's own disco#info reply for node#ver."),
+    "level_note": "Trusted: the reference implementation in harness/c20_caps.cpp (written from XEP-0115 5.1), OpenSSL SHA-1. '<' is excluded from all values (XEP-0115 5.4 declares such input ill-formed); identities are distinct and form fields uniquely keyed and non-empty (duplicates are ill-formed per 5.4).",
+    "rule": "Non-trivial: >=2 identities, or a duplicated feature, or a multi-valued field with >=2 values (c20.hash); every client configuration (c20.client). Distinct = description of the info set / (extension set, ver).",
+    "assumptions": ["values contain no '<'", "form fields have at least one value and unique keys", "a single extension form (the library supports one)"],
+    "subs": [
+        {"name": "c20.hash", "engine": "rapid", "quick": R(6, 20000), "thorough": R(16, 1000000)},
+        {"name": "c20.client", "engine": "rapid", "quick": R(3, 3000), "thorough": R(8, 100000)},
+    ],
+}
